@@ -1,5 +1,6 @@
-(* C08 — lemmas about the breaker model.  Statements about the repaired
-   classification carry [legacy c = false]; most need no such hypothesis. *)
+(* C08 — lemmas about the breaker model.  Statements that depend on the
+   current classification rule carry [legacy c = false] and/or
+   [interim c = false]; the others hold for all three rules. *)
 From Coq Require Import ZArith List Bool Lia ZifyBool.
 From Verif Require Import C08.Model.
 Import ListNotations.
@@ -10,12 +11,21 @@ Local Open Scope Z_scope.
 
 Definition is_co (a : action) : bool := match a with ACircuitOpen => true | _ => false end.
 
-(* outcome classes of an answered request, read off the LoopResult *)
+(* Outcome classes of an answered request, by what the agents did (the
+   LoopResult carries the executor's output; an agent exception is the ERROR
+   result without one):
+     failureb  executor failure (blocked, executor verdict FAILURE, whatever the
+               assessor said and whatever the gate logic) or agent exception;
+     successb  the result is not blocked;
+     blockb    intentional block: blocked, an executor verdict other than
+               FAILURE, nobody raised (fresh or served from the cache). *)
+Definition is_exc (r : result) : bool :=
+  match r_action r, r_exec r with AError, None => true | _, _ => false end.
 Definition failureb (r : result) : bool :=
-  negb (r_success r) && negb (r_cached r) && negb (is_co (r_action r)).
-Definition successb (r : result) : bool :=
-  r_success r && negb (r_blocked r) && negb (r_cached r).
-Definition blockb (r : result) : bool := r_success r && r_blocked r.
+  r_blocked r && negb (r_cached r) && (exec_fails r || is_exc r).
+Definition successb (r : result) : bool := negb (r_blocked r) && negb (r_cached r).
+Definition blockb (r : result) : bool :=
+  r_blocked r && match r_exec r with Some z => negb (z_fails z) | None => false end.
 
 Definition count_failures (rs : list result) : Z := Z.of_nat (length (filter failureb rs)).
 Definition count_uncached (rs : list result) : Z :=
@@ -98,32 +108,48 @@ Lemma record_success_spec t b :
 Proof. unfold record_success. destruct (circ b); cbn; repeat split; auto. Qed.
 
 Lemma classify_spec c t res b :
-  legacy c = false ->
+  legacy c = false -> interim c = false ->
   classify c t res b =
-    if r_success res then (if r_blocked res then b else record_success t b)
+    if r_success res && negb (r_blocked res) then record_success t b
+    else if r_blocked res && negb (exec_fails res) then b
     else record_failure (threshold c) t b.
-Proof.
-  unfold classify. intros ->. destruct (r_success res), (r_blocked res); reflexivity.
-Qed.
+Proof. unfold classify. intros -> ->. reflexivity. Qed.
 
-(* whatever the classification switch: a blocked-and-successful result leaves
-   the breaker alone, a clean success is recorded as one *)
-Lemma classify_block c t res b : blockb res = true -> classify c t res b = b.
+(* under the current and the pre-044cd88 rule an intentional block leaves the
+   breaker alone (the interim rule is the one that does not) *)
+Lemma classify_block c t res b :
+  interim c = false -> blockb res = true -> classify c t res b = b.
 Proof.
-  unfold classify, blockb. destruct (r_success res), (r_blocked res), (legacy c); cbn; congruence.
+  unfold classify, blockb, exec_fails. intros ->.
+  destruct (r_success res), (r_blocked res), (legacy c), (r_exec res) as [z|]; cbn;
+    try congruence; destruct (z_fails z); cbn; congruence.
 Qed.
 
 Lemma classify_success c t res b :
   r_success res = true -> r_blocked res = false -> classify c t res b = record_success t b.
 Proof. unfold classify. intros -> ->. reflexivity. Qed.
 
-(* in both classifications the breaker either stays, records a success or records a failure,
-   and a failure is only ever recorded for an unsuccessful result *)
+(* whatever the rule: the breaker stays, records a success or records a failure *)
 Lemma classify_cases c t res b :
   classify c t res b = b \/ classify c t res b = record_success t b \/
-  (r_success res = false /\ classify c t res b = record_failure (threshold c) t b).
+  classify c t res b = record_failure (threshold c) t b.
 Proof.
-  unfold classify. destruct (r_success res), (r_blocked res), (legacy c); cbn; auto.
+  unfold classify.
+  destruct (r_success res), (r_blocked res), (legacy c), (interim c), (exec_fails res); cbn; auto.
+Qed.
+
+(* except under the interim rule, a failure is only ever recorded for a blocked
+   result whose executor verdict is FAILURE (results of the gate table are
+   successful whenever they are not blocked) *)
+Lemma classify_cases_strict c t res b :
+  interim c = false -> (r_blocked res = false -> r_success res = true) ->
+  classify c t res b = b \/ classify c t res b = record_success t b \/
+  (r_blocked res = true /\ exec_fails res = true /\
+   classify c t res b = record_failure (threshold c) t b).
+Proof.
+  unfold classify. intros -> Hs.
+  destruct (r_blocked res); [|rewrite Hs by reflexivity; cbn; auto].
+  destruct (r_success res), (legacy c), (exec_fails res); cbn; auto.
 Qed.
 
 Lemma binv_check thr tmo t b b' adm :
@@ -157,7 +183,7 @@ Qed.
 
 Lemma binv_classify c t res b : binv (threshold c) b -> binv (threshold c) (classify c t res b).
 Proof.
-  intros H. destruct (classify_cases c t res b) as [-> | [-> | [_ ->]]];
+  intros H. destruct (classify_cases c t res b) as [-> | [-> | ->]];
     auto using binv_failure, binv_success.
 Qed.
 
@@ -167,9 +193,11 @@ Proof. split; cbn; [lia | congruence]. Qed.
 (* ---------------------------------------------------------------------- *)
 (* gate results and the cache                                              *)
 
-Lemma gate_result_fresh g z y :
-  r_cached (gate_result g z y) = false /\ is_co (r_action (gate_result g z y)) = false.
-Proof. destruct g, z, y; split; reflexivity. Qed.
+Lemma gate_result_shape g z y :
+  r_cached (gate_result g z y) = false /\ is_co (r_action (gate_result g z y)) = false /\
+  r_exec (gate_result g z y) = Some z /\
+  (r_blocked (gate_result g z y) = false -> r_success (gate_result g z y) = true).
+Proof. destruct g, z, y; repeat split; cbn; congruence. Qed.
 
 Lemma cache_ok_remove k l : cache_ok l -> cache_ok (remove k l).
 Proof.
@@ -234,7 +262,7 @@ Lemma run_req_cases c s r s' o :
    zcalls s' = zcalls s + 1 /\ (spent s' = spent s + cost c \/ spent s' = spent s + cost c + cost c) /\
    now s' = now s + dur r /\
    (cache_ok (cache s) -> cache_ok (cache s')) /\
-   (br s' = classify c (now s') o b1 \/
+   (((exists z y, o = gate_result (glogic c) z y) /\ br s' = classify c (now s') o b1) \/
     (o = res_error /\ br s' = record_failure (threshold c) (now s') b1))).
 Proof.
   unfold run_req, gate_check. cbn [bump_requests now br].
@@ -258,12 +286,13 @@ Proof.
   - destruct (zb r) as [z|].
     + destruct (yb r) as [y|].
       * intros H; inversion H; subst; clear H. right. right. split; [reflexivity|].
-        pose proof (gate_result_fresh (glogic c) z y) as [Hfr Hnco].
+        pose proof (gate_result_shape (glogic c) z y) as (Hfr & Hnco & _ & _).
         match goal with |- context [cache_store c ?S ?K ?R] =>
           pose proof (cache_store_spec c S K R) as CS end.
         cbv zeta in CS. cbn in CS. destruct CS as (Cb & Cz & Cy & Cs & Cn & Cok).
         cbn. rewrite Cz, Cs, Cn, Cb, Hz, Hsp.
         repeat split; auto; try lia.
+        left. split; [exists z, y; reflexivity | reflexivity].
       * intros H; inversion H; subst; clear H. right. right. split; [reflexivity|].
         cbn. rewrite Hz, Hsp. cbn.
         repeat split; auto; try lia.
@@ -348,17 +377,21 @@ Lemma failureb_error : failureb res_error = true.
 Proof. reflexivity. Qed.
 
 Lemma run_req_failure c s r s' o :
-  legacy c = false -> run_req c s r = (s', o) -> failureb o = true ->
+  legacy c = false -> interim c = false -> run_req c s r = (s', o) -> failureb o = true ->
   br s' = record_failure (threshold c) (now s') (fst (gate_check c s)) /\
   snd (gate_check c s) = true /\ zcalls s' = zcalls s + 1.
 Proof.
-  intros Hl H Hf. apply run_req_cases in H. cbv zeta in H.
+  intros Hl Hi H Hf. apply run_req_cases in H. cbv zeta in H.
   destruct H as [(_ & -> & _) | [(_ & _ & Hc & _) | (Ha & Hc & Hco & Hz & _ & _ & _ & Hb)]].
   - discriminate.
   - unfold failureb in Hf. rewrite Hc in Hf. cbn in Hf. lia.
-  - repeat split; auto. destruct Hb as [Hb | [_ Hb]]; [|exact Hb].
+  - repeat split; auto. destruct Hb as [[(z & y & ->) Hb] | [_ Hb]]; [|exact Hb].
     rewrite Hb, classify_spec by assumption.
-    unfold failureb in Hf. destruct (r_success o); [discriminate|reflexivity].
+    destruct (gate_result_shape (glogic c) z y) as (_ & _ & He & _).
+    unfold failureb, is_exc, exec_fails in *. rewrite He in *.
+    destruct (r_blocked (gate_result (glogic c) z y)); [|discriminate].
+    destruct (z_fails z); [|destruct (r_action (gate_result (glogic c) z y)); discriminate].
+    rewrite andb_false_r. reflexivity.
 Qed.
 
 Lemma run_req_success c s r s' o :
@@ -369,18 +402,19 @@ Proof.
   destruct H as [(_ & -> & _) | [(_ & _ & Hc & _) | (Ha & Hc & Hco & Hz & _ & _ & _ & Hb)]].
   - discriminate.
   - rewrite Hc in Hf. lia.
-  - split; auto. destruct Hb as [Hb | [-> _]]; [|discriminate].
-    rewrite Hb. apply classify_success; lia.
+  - split; auto. destruct Hb as [[(z & y & ->) Hb] | [-> _]]; [|discriminate].
+    destruct (gate_result_shape (glogic c) z y) as (_ & _ & _ & Hs).
+    rewrite Hb. apply classify_success; [apply Hs|]; lia.
 Qed.
 
 Lemma run_req_block c s r s' o :
-  run_req c s r = (s', o) -> blockb o = true -> br s' = fst (gate_check c s).
+  interim c = false -> run_req c s r = (s', o) -> blockb o = true -> br s' = fst (gate_check c s).
 Proof.
-  intros H Hf. apply run_req_cases in H. cbv zeta in H.
+  intros Hi H Hf. apply run_req_cases in H. cbv zeta in H.
   destruct H as [(_ & -> & _) | [(_ & _ & _ & Hb & _) | (_ & _ & _ & _ & _ & _ & _ & Hb)]].
   - discriminate.
   - exact Hb.
-  - destruct Hb as [Hb | [-> _]]; [|discriminate]. rewrite Hb. apply classify_block; assumption.
+  - destruct Hb as [[_ Hb] | [-> _]]; [|discriminate]. rewrite Hb. apply classify_block; assumption.
 Qed.
 
 Lemma run_req_now c s r s' o :
@@ -398,7 +432,7 @@ Proof.
   destruct H as [(_ & _ & U) | [(_ & _ & _ & Hbr & _ & _ & _ & _ & _ & Hca) | (_ & _ & _ & _ & _ & _ & Hca & Hbr)]].
   - destruct U as (E1 & _ & _ & _ & E2 & _). split; [rewrite E1 | rewrite E2]; assumption.
   - split; [rewrite Hbr | rewrite Hca]; assumption.
-  - split; [|auto]. destruct Hbr as [-> | [_ ->]]; auto using binv_classify, binv_failure.
+  - split; [|auto]. destruct Hbr as [[_ ->] | [_ ->]]; auto using binv_classify, binv_failure.
 Qed.
 
 Lemma step_inv c s o s' r : inv c s -> step c s o = (s', r) -> inv c s'.
@@ -480,69 +514,74 @@ Proof.
   destruct H as [(_ & _ & U) | [(_ & _ & _ & Hbr & _) | (_ & _ & _ & _ & _ & _ & _ & Hbr)]].
   - destruct U as (E1 & _). rewrite E1; assumption.
   - rewrite Hbr; assumption.
-  - destruct Hbr as [-> | [_ ->]]; auto using binv_classify, binv_failure.
+  - destruct Hbr as [[_ ->] | [_ ->]]; auto using binv_classify, binv_failure.
 Qed.
 
 Lemma run_req_count c s r s' o :
+  interim c = false ->
   binv (threshold c) (br s) -> run_req c s r = (s', o) ->
   fcount (br s') <= fcount (br s) + (if failureb o then 1 else 0) /\
   trips (br s) <= trips (br s') /\
   (trips (br s) < trips (br s') -> threshold c <= fcount (br s')).
 Proof.
-  intros Hb H. apply run_req_cases in H. cbv zeta in H.
+  intros Hi Hb H. apply run_req_cases in H. cbv zeta in H.
   pose proof (gate_check_binv c s Hb) as Hb1.
   pose proof (gate_check_fields c s) as G. cbv zeta in G. destruct G as (Gf & Gt & _ & _).
   set (b1 := fst (gate_check c s)) in *.
-  assert (Hfail : forall t, r_cached o = false -> is_co (r_action o) = false -> r_success o = false ->
+  assert (Hfail : forall t, failureb o = true ->
             fcount (record_failure (threshold c) t b1) <= fcount (br s) + (if failureb o then 1 else 0) /\
             trips (br s) <= trips (record_failure (threshold c) t b1) /\
             (trips (br s) < trips (record_failure (threshold c) t b1) ->
              threshold c <= fcount (record_failure (threshold c) t b1))).
-  { intros t E1 E2 E3. unfold failureb. rewrite E1, E2, E3. cbn.
+  { intros t ->.
     pose proof (record_failure_count (threshold c) t b1 Hb1) as (F1 & F2 & F3). lia. }
   destruct H as [(_ & _ & U) | [(_ & _ & _ & Hbr & _) | (_ & Hc & Hco & _ & _ & _ & _ & Hbr)]].
   - destruct U as (E1 & _). rewrite E1. destruct (failureb o); lia.
   - rewrite Hbr. destruct (failureb o); lia.
-  - destruct Hbr as [Hbr | [-> Hbr]].
-    + rewrite Hbr. destruct (classify_cases c (now s') o b1) as [-> | [-> | [Hs ->]]].
+  - destruct Hbr as [[(z & y & Ho) Hbr] | [-> Hbr]].
+    + rewrite Hbr.
+      assert (Hs : r_blocked o = false -> r_success o = true)
+        by (rewrite Ho; apply gate_result_shape).
+      destruct (classify_cases_strict c (now s') o b1 Hi Hs) as [-> | [-> | (Hbl & Hef & ->)]].
       * destruct (failureb o); lia.
       * pose proof (record_success_spec (now s') b1) as S. cbv zeta in S. destruct S as (_ & St & Sm).
         destruct Hb1 as [Hb0 _].
         destruct (circ b1); destruct Sm as [_ Sf]; destruct (failureb o); lia.
-      * apply Hfail; assumption.
-    + rewrite Hbr. apply Hfail; reflexivity.
+      * apply Hfail. unfold failureb. rewrite Hbl, Hc, Hef. reflexivity.
+    + rewrite Hbr. apply Hfail. reflexivity.
 Qed.
 
 Lemma step_count c s o s1 r :
+  interim c = false ->
   binv (threshold c) (br s) -> step c s o = (s1, r) ->
   binv (threshold c) (br s1) /\
   fcount (br s1) <= fcount (br s) + count_failures (match r with Some x => [x] | None => [] end) /\
   trips (br s) <= trips (br s1) /\
   (trips (br s) < trips (br s1) -> threshold c <= fcount (br s1)).
 Proof.
-  intros Hb H. destruct o as [d | q | |]; cbn in H.
+  intros Hi Hb H. destruct o as [d | q | |]; cbn in H.
   - inversion H; subst. split; [exact Hb|]. change (count_failures []) with 0. cbn. lia.
   - destruct (run_req c s q) as [s' x] eqn:E. inversion H; subst.
     split; [eapply run_req_binv; eauto|].
     rewrite count_failures_cons. change (count_failures []) with 0.
-    pose proof (run_req_count c s q s1 x Hb E). lia.
+    pose proof (run_req_count c s q s1 x Hi Hb E). lia.
   - inversion H; subst. cbn. destruct Hb as [H0 H1].
     split; [apply binv_reset|]. change (count_failures []) with 0. lia.
   - inversion H; subst. split; [exact Hb|]. change (count_failures []) with 0. cbn. lia.
 Qed.
 
-Lemma run_ops_count c : forall ops s s' rs,
+Lemma run_ops_count c : interim c = false -> forall ops s s' rs,
   binv (threshold c) (br s) -> run_ops c s ops = (s', rs) ->
   binv (threshold c) (br s') /\
   fcount (br s') <= fcount (br s) + count_failures rs /\
   trips (br s) <= trips (br s') /\
   (trips (br s) < trips (br s') -> threshold c <= fcount (br s) + count_failures rs).
 Proof.
-  induction ops as [|o rest IH]; intros s s' rs Hb H.
+  intros Hi. induction ops as [|o rest IH]; intros s s' rs Hb H.
   - inversion H; subst. change (count_failures []) with 0. split; [exact Hb | lia].
   - rewrite run_ops_cons in H. destruct (step c s o) as [s1 r] eqn:E.
     destruct (run_ops c s1 rest) as [s2 rs2] eqn:E2. inversion H; subst; clear H.
-    destruct (step_count c s o s1 r Hb E) as (Hb1 & Hf1 & Ht1 & Hx1).
+    destruct (step_count c s o s1 r Hi Hb E) as (Hb1 & Hf1 & Ht1 & Hx1).
     destruct (IH s1 s' rs2 Hb1 E2) as (Hb2 & Hf2 & Ht2 & Hx2).
     assert (Hcf : count_failures (match r with Some x => x :: rs2 | None => rs2 end) =
                   count_failures (match r with Some x => [x] | None => [] end) + count_failures rs2).
@@ -555,6 +594,7 @@ Qed.
 
 Lemma open_implies_threshold_proof :
   forall c s ops s' rs,
+    interim c = false ->
     circ (br s) = Closed -> fcount (br s) = 0 ->
     run_ops c s ops = (s', rs) ->
     (circ (br s') <> Closed ->
@@ -562,9 +602,9 @@ Lemma open_implies_threshold_proof :
        last_failure (br s') <> None) /\
     (trips (br s) < trips (br s') -> threshold c <= count_failures rs).
 Proof.
-  intros c s ops s' rs Hc Hf H.
+  intros c s ops s' rs Hint Hc Hf H.
   assert (Hb : binv (threshold c) (br s)) by (split; [lia | congruence]).
-  destruct (run_ops_count c ops s s' rs Hb H) as ([_ Hi] & Hle & _ & Ht).
+  destruct (run_ops_count c Hint ops s s' rs Hb H) as ([_ Hi] & Hle & _ & Ht).
   split; [intros Hn; destruct (Hi Hn) | intros L; specialize (Ht L)]; repeat split; auto; lia.
 Qed.
 
@@ -572,14 +612,14 @@ Qed.
 (* 2. open at the latest after threshold consecutive failures              *)
 
 Lemma consecutive_failures c :
-  legacy c = false ->
+  legacy c = false -> interim c = false ->
   forall ops s s' rs,
     no_reset ops -> run_ops c s ops = (s', rs) ->
     Forall (fun r => failureb r = true) rs ->
     (circ (br s) = Closed -> threshold c <= fcount (br s) + Z.of_nat (length rs)) ->
     (rs = [] -> br s' = br s) /\ (rs <> [] -> circ (br s') = Open).
 Proof.
-  intros Hl. induction ops as [|o rest IH]; intros s s' rs Hnr H Hall Hthr.
+  intros Hl Hi. induction ops as [|o rest IH]; intros s s' rs Hnr H Hall Hthr.
   - inversion H; subst. split; [reflexivity | congruence].
   - rewrite run_ops_cons in H. inversion Hnr as [|? ? Ho Hnr']; subst.
     destruct o as [d | q | |]; cbn [step] in H; try contradiction.
@@ -589,7 +629,7 @@ Proof.
       destruct (run_ops c s1 rest) as [s2 rs2] eqn:E2. inversion H; subst; clear H.
       inversion Hall as [|? ? Hx Hall']; subst.
       split; [discriminate|]. intros _.
-      destruct (run_req_failure c s q s1 x Hl E Hx) as (Hbr & _ & _).
+      destruct (run_req_failure c s q s1 x Hl Hi E Hx) as (Hbr & _ & _).
       pose proof (gate_check_fields c s) as G. cbv zeta in G. destruct G as (Gf & _ & _ & Gc).
       pose proof (record_failure_spec (threshold c) (now s1) (fst (gate_check c s))) as S.
       cbv zeta in S. rewrite <- Hbr in S. destruct S as (Sf & _ & _ & _ & Sm).
@@ -615,14 +655,14 @@ Qed.
 
 Lemma opens_after_n_proof :
   forall c s ops s' rs,
-    legacy c = false -> 1 <= threshold c -> 0 <= fcount (br s) ->
+    legacy c = false -> interim c = false -> 1 <= threshold c -> 0 <= fcount (br s) ->
     no_reset ops -> run_ops c s ops = (s', rs) ->
     Forall (fun r => failureb r = true) rs ->
     threshold c <= Z.of_nat (length rs) ->
     circ (br s') = Open.
 Proof.
-  intros c s ops s' rs Hl Ht Hf Hnr H Hall Hlen.
-  destruct (consecutive_failures c Hl ops s s' rs Hnr H Hall) as [_ I]; [lia|].
+  intros c s ops s' rs Hl Hi Ht Hf Hnr H Hall Hlen.
+  destruct (consecutive_failures c Hl Hi ops s s' rs Hnr H Hall) as [_ I]; [lia|].
   apply I. destruct rs; [cbn in Hlen; lia | discriminate].
 Qed.
 
@@ -732,7 +772,7 @@ Qed.
 
 Lemma probe_failure_proof :
   forall c s r s' o,
-    legacy c = false -> enabled c = true -> probe_state c s ->
+    legacy c = false -> interim c = false -> enabled c = true -> probe_state c s ->
     run_req c s r = (s', o) -> failureb o = true ->
     circ (br s') = Open /\ last_failure (br s') = Some (now s') /\
     trips (br s') = trips (br s) + 1 /\ fcount (br s') = fcount (br s) + 1 /\
@@ -742,9 +782,9 @@ Lemma probe_failure_proof :
        Forall (fun x => x = res_circuit_open) rs /\ br s'' = br s' /\
        zcalls s'' = zcalls s' /\ ycalls s'' = ycalls s' /\ spent s'' = spent s').
 Proof.
-  intros c s r s' o Hl He Hp H Hf.
+  intros c s r s' o Hl Hi He Hp H Hf.
   destruct (probe_state_gate c s He Hp) as (Hg & Hh & Hfc & Ht).
-  destruct (run_req_failure c s r s' o Hl H Hf) as (Hb & _ & _).
+  destruct (run_req_failure c s r s' o Hl Hi H Hf) as (Hb & _ & _).
   pose proof (record_failure_spec (threshold c) (now s') (fst (gate_check c s))) as S. cbv zeta in S.
   rewrite <- Hb, Hh in S. destruct S as (Sf & Sl & _ & _ & Sc & St).
   repeat split; auto; try congruence;
@@ -757,25 +797,26 @@ Qed.
 
 Lemma blocks_not_failures_proof :
   forall c ops s s' rs,
+    interim c = false ->
     requests_only ops -> run_ops c s ops = (s', rs) ->
     Forall (fun r => blockb r = true) rs ->
     fcount (br s') = fcount (br s) /\ trips (br s') = trips (br s) /\
     last_failure (br s') = last_failure (br s) /\
     (circ (br s') = circ (br s) \/ (circ (br s) = Open /\ circ (br s') = HalfOpen)).
 Proof.
-  intros c ops. induction ops as [|o rest IH]; intros s s' rs Hro H Hall.
+  intros c ops. induction ops as [|o rest IH]; intros s s' rs Hi Hro H Hall.
   - inversion H; subst. auto.
   - rewrite run_ops_cons in H. inversion Hro as [|? ? Ho Hro']; subst.
     destruct o as [d | q | |]; cbn [step] in H; try contradiction.
     + destruct (run_ops c (advance s d) rest) as [s2 rs2] eqn:E2. inversion H; subst; clear H.
-      apply (IH (advance s d) s' rs Hro' E2 Hall).
+      apply (IH (advance s d) s' rs Hi Hro' E2 Hall).
     + destruct (run_req c s q) as [s1 x] eqn:E.
       destruct (run_ops c s1 rest) as [s2 rs2] eqn:E2. inversion H; subst; clear H.
       inversion Hall as [|? ? Hx Hall']; subst.
-      pose proof (run_req_block c s q s1 x E Hx) as Hb.
+      pose proof (run_req_block c s q s1 x Hi E Hx) as Hb.
       pose proof (gate_check_fields c s) as G. cbv zeta in G. rewrite <- Hb in G.
       destruct G as (Gf & Gt & Gl & Gc).
-      destruct (IH s1 s' rs2 Hro' E2 Hall') as (I1 & I2 & I3 & I4).
+      destruct (IH s1 s' rs2 Hi Hro' E2 Hall') as (I1 & I2 & I3 & I4).
       repeat split; try congruence.
       destruct Gc as [Gc | (Gc1 & Gc2 & _)]; destruct I4 as [I4 | (I4 & I5)]; try congruence; auto.
       * left. congruence.
